@@ -127,6 +127,7 @@ impl Property for C06 {
             ("params:wrong-id-count".into(), 5),
             ("params:wrong-id-count-mod-65536".into(), 2),
             ("t>=16".into(), 6),
+            ("reconstruct:more-than-t-unsorted".into(), m),
         ]
     }
     fn check(&self, suite: SuiteId, case: &Case, ctx: &mut Ctx) -> CheckResult {
@@ -283,6 +284,23 @@ fn honest<C: Suite>(shape: Shape, ids: IdSpec, split: bool, custom_default: bool
     for p in sample_pos.iter().take(24) {
         let id = sorted[*p];
         ensure!(ctx, interp(Some(id.to_scalar())) == shares[&id].signing_share().to_scalar(), "C06/shares-not-on-one-polynomial", "share of {} is not on the degree-(t-1) polynomial through {} other shares ({desc})", id_hex::<C>(&id), t);
+    }
+    // library reconstruct with MORE than t shares ("at least min_signers"), in an order that is not ascending
+    if n > t && n <= 300 {
+        let k = t + 1 + rng.below((n - t) as u64) as usize;
+        let mut ids_k: Vec<Id<C>> = pick(&mut rng, k);
+        for i in (1..ids_k.len()).rev() {
+            ids_k.swap(i, rng.below(i as u64 + 1) as usize);
+        }
+        ids_k.reverse();
+        let kps: Vec<KeyPackage<C>> = ids_k.iter().filter_map(|i| KeyPackage::try_from(shares[i].clone()).ok()).collect();
+        if kps.len() == k {
+            ctx.label("reconstruct:more-than-t-unsorted");
+            match frost::keys::reconstruct(&kps) {
+                Ok(key) => ensure!(ctx, key.to_scalar() == secret, "C06/reconstruct", "reconstruct over {k} > t shares (caller's order not ascending) != interpolated secret ({desc})"),
+                Err(e) => ctx.fail("C06/reconstruct", format!("reconstruct failed over {k} > t honest shares passed in non-ascending order: {e:?} ({desc})"))?,
+            }
+        }
     }
     // library reconstruct with another t-subset
     let kps: Vec<KeyPackage<C>> = pick(&mut rng, t).iter().filter_map(|i| KeyPackage::try_from(shares[i].clone()).ok()).collect();
